@@ -1,6 +1,6 @@
 \* as built: ALL call sequences of length 3 x 4 cache configurations
 CONSTANTS
-  Objs = {1, 2, 3, 8, 9}
+  Objs = {1, 2, 3, 8, 9, 10}
   Types = {"P", "D", "VM", "VR"}
   TypesOf <- MC_TypesOf
   Loads <- MC_Loads
